@@ -1,6 +1,7 @@
 /- C14 handlers: hash functions, HMAC, KDF/MGF, XMD, AES-CBC. -/
 import Driver.C15
 import RelicVerif.Spec.Sha512
+import RelicVerif.Spec.Blake2s
 import RelicVerif.Spec.Mac
 import RelicVerif.Spec.Aes
 import RelicVerif.Model.Md
@@ -30,6 +31,8 @@ def hashOf (alg : String) : Option Mac.Hash :=
   | "sh224" => some { h := Sha256.sha224, outLen := 28, blockLen := 64 }
   | "sh384" => some { h := Sha512.sha384, outLen := 48, blockLen := 128 }
   | "sh512" => some { h := Sha512.sha512, outLen := 64, blockLen := 128 }
+  | "b2s160" => some { h := Blake2s.blake2s 20, outLen := 20, blockLen := 64 }
+  | "b2s256" => some { h := Blake2s.blake2s 32, outLen := 32, blockLen := 64 }
   | _ => none
 
 def aesE (key : List UInt8) : List UInt8 → List UInt8 := Aes.cipher (Aes.keyExpansion key)
